@@ -574,6 +574,7 @@ func (s *Snapshot) Open() bool {
 	if atomic.LoadInt32(&s.refCount) == 0 {
 		return false
 	}
+	verifYield(VerifPtOpenTested)
 	atomic.AddInt32(&s.refCount, 1)
 	return true
 }
@@ -584,6 +585,7 @@ func (s *Snapshot) Open() bool {
 func (s *Snapshot) Close() {
 	newRefcount := atomic.AddInt32(&s.refCount, -1)
 	if newRefcount == 0 {
+		verifYield(VerifPtCloseDec)
 		buf := s.db.snapshots.MakeBuf()
 		defer s.db.snapshots.FreeBuf(buf)
 
@@ -710,6 +712,7 @@ func (m *Nitro) collectDead() {
 	defer iter.Close()
 
 	for iter.SeekFirst(); iter.Valid(); iter.Next() {
+		verifYield(VerifPtGCLoop)
 		node := iter.GetNode()
 		sn := (*Snapshot)(node.Item())
 		if sn.sn != m.GetLastGCSn()+1 {
@@ -727,6 +730,7 @@ func (m *Nitro) collectDead() {
 func (m *Nitro) GC() {
 	if atomic.CompareAndSwapInt32(&m.isGCRunning, 0, 1) {
 		m.collectDead()
+		verifYield(VerifPtGCEnd)
 		atomic.CompareAndSwapInt32(&m.isGCRunning, 1, 0)
 	}
 }
